@@ -52,8 +52,8 @@ def run(ctx):
     ]
     return ctx.finish(
         level="proof",
-        rule="264 hand-written programs run first (16: one per clause of the statement; 20: an operator that desugars to a runtime call "
-             "(string +) with a lazy left operand x effects nested in the right operand; 48: host calls the compiler inserts "
+        rule="280 hand-written programs run first (16: one per clause of the statement; 36: an operator that desugars to a runtime call "
+             "(string +, list +) with a lazy left operand x effects nested in the right operand; 48: host calls the compiler inserts "
              "implicitly — f-strings with 2 and 3 interpolated parts x every tuple of part kinds {host value with a logging to_string, "
              "effectful call, block with effect}, `==`/`!=` on host values; 45: a bare variable / field path as a constructor component "
              "that a later component assigns, per constructor kind; 88: a record literal of R, P (two fields), G[T], H[T] in every "
